@@ -347,6 +347,7 @@ fn judge_case(c: &RCase) -> Verdict {
     // F44 classifier: keys that entered kanata's list of pressed keys in a tick that began in
     // a hidden sequence mode (their press is not sent to the OS) and have stayed there since
     let mut suppressed: BTreeSet<u16> = BTreeSet::new();
+    let mut deferred: Option<Verdict> = None;
     let mut v = Verdict::pass(false);
     let mut any_repeat_out = false;
     let mut any_complete = false;
@@ -427,7 +428,16 @@ fn judge_case(c: &RCase) -> Verdict {
                                 } else {
                                     "repeat:for-key-that-is-up"
                                 };
-                                return Verdict::failed(sig, format!("{}\nthe repeat of {} was forwarded as {} which is not down at the OS (down: {:?})", describe(&sim), out_name(*k), out_name(rk), os.keys.iter().map(|x| out_name(*x)).collect::<Vec<_>>()));
+                                let f = Verdict::failed(sig, format!("{}\nthe repeat of {} was forwarded as {} which is not down at the OS (down: {:?})", describe(&sim), out_name(*k), out_name(rk), os.keys.iter().map(|x| out_name(*x)).collect::<Vec<_>>()));
+                                if in_hidden_seq {
+                                    // a known finding: keep judging the rest of the history, report
+                                    // this one only if nothing else fails
+                                    if deferred.is_none() {
+                                        deferred = Some(f);
+                                    }
+                                    continue;
+                                }
+                                return f;
                             }
                         }
                         _ => {
@@ -508,6 +518,11 @@ fn judge_case(c: &RCase) -> Verdict {
     }
     if c.overrides {
         v.classes.push("overrides");
+    }
+    if let Some(mut f) = deferred {
+        f.nontrivial = v.nontrivial;
+        f.classes = v.classes.clone();
+        return f;
     }
     v
 }
